@@ -5,7 +5,10 @@
 // may block until the harness releases it.
 package verifhook
 
-import "sync/atomic"
+import (
+	"sync"
+	"sync/atomic"
+)
 
 var callback atomic.Pointer[func(string)]
 
@@ -23,4 +26,21 @@ func At(name string) {
 	if f := callback.Load(); f != nil {
 		(*f)(name)
 	}
+}
+
+var skipped sync.Map
+
+// SetSkip makes Skip(name) report v from now on.
+func SetSkip(name string, v bool) {
+	if v {
+		skipped.Store(name, struct{}{})
+	} else {
+		skipped.Delete(name)
+	}
+}
+
+// Skip reports whether the harness asked for the named optional step to be left out.
+func Skip(name string) bool {
+	_, ok := skipped.Load(name)
+	return ok
 }
